@@ -72,7 +72,12 @@ def _energy_fraction(col, N, NW, A=None):
     W = float(NW) / N
     if A is not None:
         return float(col.dot(A.dot(col)) / col.dot(col))
-    c = np.correlate(col, col, "full")[N - 1:]
+    if N > 1024:
+        # lag sums through an FFT (O(N log N)); agrees with the direct sums to 1e-15
+        M = 1 << int(math.ceil(math.log2(2 * N)))
+        c = np.fft.irfft(np.abs(np.fft.rfft(col, M)) ** 2, M)[:N]
+    else:
+        c = np.correlate(col, col, "full")[N - 1:]
     m = np.arange(1, N)
     a = np.sin(2 * np.pi * W * m) / (np.pi * m)
     return float((2 * W * c[0] + 2 * np.dot(a, c[1:])) / c[0])
@@ -102,6 +107,37 @@ def dpss_case(draw):
         k = None if round(2 * NW) <= 2 * NW else kmax
     nw_int = bool(draw(st.booleans()) and float(NW) == int(NW))
     return {"N": N, "NW": int(NW) if nw_int else float(NW), "k": k}
+
+
+# grid points with a recorded finding (known_findings.json identifies them by this coordinate; every other point reports as usual)
+FINDING_POINTS = {(2580, 7.0): "N=2580 NW=7"}
+
+
+class _Tagged(object):
+    """ctx proxy: a violation at a recorded grid point carries the point in its signature"""
+
+    def __init__(self, ctx, point):
+        self.__dict__["_ctx"], self.__dict__["_point"] = ctx, point
+
+    def __getattr__(self, name):
+        return getattr(self._ctx, name)
+
+    def __setattr__(self, name, value):
+        setattr(self._ctx, name, value)
+
+    def check(self, cond, msg, sig=None, **kw):
+        return self._ctx.check(cond, msg, sig=dict(sig or {}, point=self._point), **kw)
+
+    def close(self, a, b, msg, sig=None, **kw):
+        return self._ctx.close(a, b, msg, sig=dict(sig or {}, point=self._point), **kw)
+
+    def fail(self, msg, sig=None, **kw):
+        return self._ctx.fail(msg, sig=dict(sig or {}, point=self._point), **kw)
+
+
+def _tag(ctx, case):
+    pt = FINDING_POINTS.get((case["N"], float(case["NW"])))
+    return _Tagged(ctx, pt) if pt else ctx
 
 
 def _call(ctx, case):
@@ -222,6 +258,7 @@ def _sign(ctx, v, lam, N, NW, k):
 @sub("C18.orth", strategy=dpss_case(), quick=800, thorough=20000,
      doc="dpss(N,NW,k) is N x k, finite, V^T V == I (1e-6); k default == round(2NW)")
 def c18_orth(ctx, case):
+    ctx = _tag(ctx, case)
     _orthonormal(ctx, *_call(ctx, case))
 
 
@@ -229,6 +266,7 @@ def c18_orth(ctx, case):
      doc="k ratios in (0,1], non-increasing, each == v^T A v / v^T v with A the sinc kernel sin(2piW(n-m))/(pi(n-m)) "
          "(dense N<=512, lag sums above; plus integrated |V(f)|^2 for N<=192)")
 def c18_ratios(ctx, case):
+    ctx = _tag(ctx, case)
     _ratios(ctx, *_call(ctx, case))
 
 
@@ -236,12 +274,14 @@ def c18_ratios(ctx, case):
      doc="columns == leading eigenvectors of the commuting tridiagonal matrix with the documented sign convention (1e-5); "
          "A v == lambda v (N<=512); lambda == top-k eigvalsh(A) (N<=256)")
 def c18_eigvec(ctx, case):
+    ctx = _tag(ctx, case)
     _eigvec(ctx, *_call(ctx, case))
 
 
 @sub("C18.sym", strategy=dpss_case(), quick=800, thorough=20000,
      doc="even-index tapers symmetric, odd-index antisymmetric (2e-5)")
 def c18_sym(ctx, case):
+    ctx = _tag(ctx, case)
     _symmetry(ctx, *_call(ctx, case))
 
 
@@ -260,6 +300,7 @@ def sign_case(draw):
      doc="even-index tapers have positive sum, odd-index tapers start with a positive lobe; equal to the "
          "sign-normalised reference eigenvectors (1e-5)")
 def c18_sign(ctx, case):
+    ctx = _tag(ctx, case)
     _sign(ctx, *_call(ctx, case))
 
 
@@ -277,6 +318,7 @@ def default_case(draw):
 @sub("C18.default", strategy=default_case(), quick=500, thorough=10000,
      doc="dpss(N,NW) == dpss(N,NW,k=round(2NW)) exactly (both outputs), for NW with round(2NW) <= 2NW")
 def c18_default(ctx, case):
+    ctx = _tag(ctx, case)
     v, lam, N, NW, k = _call(ctx, case)
     v2, lam2 = spectrum.dpss(N, NW, k)
     ctx.check(np.array_equal(v, np.asarray(v2)) and np.array_equal(lam, np.asarray(lam2)),
@@ -296,11 +338,34 @@ def _sweep(tier):
 @sub("C18.sweep", enum=_sweep, exhaustive=True, shards_quick=2,
      doc="every N in 8..48 (quick) / 8..512 (thorough) x NW in {1,2.5,4,8} with k=2NW: all clauses")
 def c18_sweep(ctx, case):
+    ctx = _tag(ctx, case)
     args = _call(ctx, case)
     _orthonormal(ctx, *args)
     _ratios(ctx, *args)
     _eigvec(ctx, *args)
     _symmetry(ctx, *args)
+    _sign(ctx, *args)
+
+
+# the whole quantified grid: every N in 8..4096 x every half-integer NW in 1..8 (NW < N/2), default number of tapers.
+# Failures that depend on the last bits of an intermediate result (a re-orthonormalisation triggered by a round-off monitor, a
+# fallback formula) occupy a handful of isolated (N, NW) points of this grid; only visiting the points finds them.
+def _grid(tier):
+    for N in range(8, 4097):
+        for j, NW in enumerate(HALF):
+            if NW < N / 2.0 and (tier == "thorough" or N <= 64 or (N + j) % 3 == 0):
+                yield {"N": N, "NW": NW, "k": None}
+
+
+@sub("C18.grid", enum=_grid, exhaustive=True, shards_quick=16, shards_thorough=16,
+     doc="N in 8..4096 x NW in {1, 1.5, ..., 8}, default k: shape, orthonormality, ratio range / order / energy fraction, sign "
+         "convention against the signed reference eigenvectors -- every pair (thorough) / every pair up to N = 64 and one pair in "
+         "three above (quick)")
+def c18_grid(ctx, case):
+    ctx = _tag(ctx, case)
+    args = _call(ctx, case)
+    _orthonormal(ctx, *args)
+    _ratios(ctx, *args)
     _sign(ctx, *args)
 
 
